@@ -78,8 +78,37 @@ def _pre(kind, mc, nr):
     return [list(x) for x in PRE if x[0] != kind and (x[1], x[2]) == (mc, nr)][:2]
 
 
-def check_log(rep, kind, mc, nr, A, B, tag):
+def regen(gen):
+    """Rebuild the two counter tables of a recorded merge from its descriptor."""
+    g = gen[0]
+    if g == "pairs8":
+        I = np.arange(256)
+        return np.repeat(I[:, None], 256, axis=1), np.repeat(I[None, :], 256, axis=0)
+    if g in ("band", "bandT"):
+        rows = np.asarray(gen[1])
+        J = np.arange(65536)
+        A = np.repeat(rows[:, None], 65536, axis=1)
+        B = np.repeat(J[None, :], len(rows), axis=0)
+        return (A, B) if g == "band" else (B, A)
+    if g == "ident16":
+        J = np.arange(65536)[None, :]
+        return J, np.zeros_like(J)
+    if g == "wide":
+        _, top, w, d, seed = gen
+        rng = np.random.default_rng(seed)
+        A = rng.integers(0, top + 1, (d, w))
+        B = rng.integers(0, min(top, 300) + 1, (d, w))
+        A[:, -3:] = (1, 2, top)
+        return A, B
+    if g == "lit":
+        return np.array(gen[1]), np.array(gen[2])
+    raise ValueError(gen)
+
+
+def check_log(rep, kind, mc, nr, A, B, tag, gen=None):
     """A, B: 2-d integer arrays of counters.  One real merge; every cell checked."""
+    if gen is None:
+        gen = ["lit", A.tolist(), B.tolist()] if A.size <= 64 else None
     pre = [list(x) for x in PRE if x[0] != kind and (x[1], x[2]) == (mc, nr)][:2]
     if (kind, mc, nr) not in PRE:
         PRE.append((kind, mc, nr))
@@ -102,7 +131,7 @@ def check_log(rep, kind, mc, nr, A, B, tag):
         i, j = (int(x) for x in np.argwhere(bad)[0])
         rep.violation(
             {"kind": "log", "kind_": kind, "mc": mc, "nr": nr, "a": int(A[i, j]), "b": int(B[i, j]),
-             "shape": [int(d), int(w)], "pos": [i, j], "pre": pre},
+             "shape": [int(d), int(w)], "pos": [i, j], "pre": pre, "gen": gen},
             f"{kind}(max_count={mc}, num_reserved={nr}): merge of counters {int(A[i,j])} and "
             f"{int(B[i,j])} gives {int(R[i,j])}, nearest-value rule gives {int(lo[i,j])}"
             + (f" or {int(hi[i,j])}" if hi[i, j] != lo[i, j] else "")
@@ -113,15 +142,15 @@ def check_log(rep, kind, mc, nr, A, B, tag):
         i, j = (int(x) for x in np.argwhere(mono)[0])
         rep.violation(
             {"kind": "log", "kind_": kind, "mc": mc, "nr": nr, "a": int(A[i, j]), "b": int(B[i, j]),
-             "shape": [int(d), int(w)], "pos": [i, j], "pre": pre},
+             "shape": [int(d), int(w)], "pos": [i, j], "pre": pre, "gen": gen},
             f"{kind}({mc},{nr}): merged counter {int(R[i,j])} is below an input "
             f"({int(A[i,j])}, {int(B[i,j])})",
         )
     if (b.cms.tobytes(), b.n_added_records.tobytes()) != b_before:
-        rep.violation({"kind": "log-b", "kind_": kind, "mc": mc, "nr": nr, "pre": pre},
+        rep.violation({"kind": "log-b", "kind_": kind, "mc": mc, "nr": nr, "pre": pre, "gen": gen},
                       f"{kind}({mc},{nr}): merge changed its argument")
     if tuple(int(x) for x in a.n_added_records) != (18, 5):
-        rep.violation({"kind": "log-n", "kind_": kind, "mc": mc, "nr": nr},
+        rep.violation({"kind": "log-n", "kind_": kind, "mc": mc, "nr": nr, "pre": pre, "gen": gen},
                       f"{kind}({mc},{nr}): bookkeeping after merge is {a.n_added_records} not (18,5)")
     # same tables, but the argument's element counter is 0 (a worker that only counted
     # records, or a table written directly): cells and bookkeeping must still be summed
@@ -131,7 +160,7 @@ def check_log(rep, kind, mc, nr, A, B, tag):
     b.n_added_records[:] = (0, 2)
     a2.merge(b)
     if not np.array_equal(a2.cms, a.cms) or tuple(int(x) for x in a2.n_added_records) != (11, 5):
-        rep.violation({"kind": "log-n0", "kind_": kind, "mc": mc, "nr": nr, "pre": pre},
+        rep.violation({"kind": "log-n0", "kind_": kind, "mc": mc, "nr": nr, "pre": pre, "gen": gen},
                       f"{kind}({mc},{nr}): merging a sketch whose n_added() is 0 (n_records 2, "
                       f"non-empty table) does not add its cells / records: bookkeeping "
                       f"{a2.n_added_records}, cells equal: {bool(np.array_equal(a2.cms, a.cms))}")
@@ -152,7 +181,7 @@ def log8_all_pairs(rep, mc, nr):
     I = np.arange(256)
     A = np.repeat(I[:, None], 256, axis=1)
     B = np.repeat(I[None, :], 256, axis=0)
-    R = check_log(rep, "log8", mc, nr, A, B, "all 256x256 pairs")
+    R = check_log(rep, "log8", mc, nr, A, B, "all 256x256 pairs", gen=["pairs8"])
     if not np.array_equal(R, R.T):
         i, j = (int(x) for x in np.argwhere(R != R.T)[0])
         rep.violation({"kind": "log", "kind_": "log8", "mc": mc, "nr": nr, "a": i, "b": j,
@@ -171,9 +200,10 @@ def log16_band(rep, mc, nr, rows):
     J = np.arange(65536)
     A = np.repeat(np.asarray(rows)[:, None], 65536, axis=1)
     B = np.repeat(J[None, :], len(rows), axis=0)
-    R = check_log(rep, "log16", mc, nr, A, B, f"{len(rows)} rows x 65536")
+    R = check_log(rep, "log16", mc, nr, A, B, f"{len(rows)} rows x 65536",
+                  gen=["band", [int(r) for r in rows]])
     # the same pairs the other way round (commutativity)
-    R2 = check_log(rep, "log16", mc, nr, B, A, "transposed band")
+    R2 = check_log(rep, "log16", mc, nr, B, A, "transposed band", gen=["bandT", [int(r) for r in rows]])
     if not np.array_equal(R, R2):
         i, j = (int(x) for x in np.argwhere(R != R2)[0])
         rep.violation({"kind": "log", "kind_": "log16", "mc": mc, "nr": nr, "a": int(A[i, j]),
@@ -194,6 +224,67 @@ def band_rows(nr, n, salt):
         rows.add(r)
         r += step
     return sorted(rows)
+
+
+def single_cell_merges(rep):
+    """Every counter pair again, but each pair in its OWN merge of two one-cell sketches:
+    whatever a merge derives from the table as a whole (maximum, emptiness, sums) is then
+    a function of that one pair.  log8: all 65 536 pairs x 2 configurations; log16: the
+    pairs whose sum sits around 2^16 and around the reserved boundary."""
+    n = 0
+    for kind, mc, nr in (("log8", 2**32 - 1, 15), ("log8", 10**6, 100), ("log16", 2**32 - 1, 1023)):
+        dec = decode_table_cached(kind, mc, nr)
+        top = len(dec) - 1
+        a = SK.make(kind, 1, 1, mc, nr)
+        b = SK.make(kind, 1, 1, mc, nr)
+        if kind == "log8":
+            pairs = ((x, y) for x in range(256) for y in range(256))
+        else:
+            xs = list(range(0, 65536, 257)) + [32767, 32768, 32769, 65535]
+            pairs = ((x, y) for x in xs for y in
+                     {65536 - x, 65536 - x + 1, min(65535, 65536 - x + nr), max(0, nr - x), max(0, nr + 1 - x), 0, 1, top}
+                     if 0 <= y <= top)
+        A, B, R = [], [], []
+        for x, y in pairs:
+            a.cms[0, 0] = x
+            b.cms[0, 0] = y
+            a.n_added_records[:] = (x, 1)
+            b.n_added_records[:] = (y, 2)
+            a.merge(b)
+            A.append(x)
+            B.append(y)
+            R.append(int(a.cms[0, 0]))
+            if int(b.cms[0, 0]) != y or tuple(int(v) for v in a.n_added_records) != (x + y, 3):
+                rep.violation({"kind": "cell1", "kind_": kind, "mc": mc, "nr": nr, "a": x, "b": y},
+                              f"{kind}({mc},{nr}) one-cell merge of {x} and {y}: argument changed or "
+                              f"bookkeeping {a.n_added_records} is not the sum")
+        A, B, R = np.array(A), np.array(B), np.array(R)
+        lo, hi = expected_log(dec, nr, mc, A, B)
+        bad = ~((R == lo) | (R == hi))
+        n += len(A)
+        rep.evals(len(A))
+        if bad.any():
+            i = int(np.argwhere(bad)[0][0])
+            rep.violation({"kind": "cell1", "kind_": kind, "mc": mc, "nr": nr, "a": int(A[i]), "b": int(B[i])},
+                          f"{kind}({mc},{nr}): merging two ONE-CELL sketches holding {int(A[i])} and "
+                          f"{int(B[i])} gives {int(R[i])}, nearest-value rule gives {int(lo[i])} "
+                          f"({int(bad.sum())} bad pairs)")
+        rep.nontrivial(("cell1", kind, mc, nr))
+    # an argument with an all-zero table that carries records (a worker whose records
+    # yielded no keys)
+    for kind in ("linear", "log16", "log8"):
+        a = SK.make(kind, 3, 2)
+        b = SK.make(kind, 3, 2)
+        a.add(b"x", 2)
+        a.n_added_records[1] = 5
+        b.n_added_records[1] = 7
+        a.merge(b)
+        n += 1
+        if int(a.n_records()) != 12 or int(a.n_added()) != 2:
+            rep.violation({"kind": "zero-records", "kind_": kind},
+                          f"{kind}: merging an empty-table sketch with n_records()=7 into one with 5 "
+                          f"gives n_records()={int(a.n_records())} (must be 12)")
+    return n
 
 
 def linear_part(rep):
@@ -284,7 +375,8 @@ def full_task(arg):
             rows = np.arange(s, min(hi, s + 128))
             A = np.repeat(rows[:, None], 65536, axis=1)
             B = np.repeat(J[None, :], len(rows), axis=0)
-            check_log(r, "log16", 2**32 - 1, 1023, A, B, f"rows {s}..{s+len(rows)-1} x all")
+            check_log(r, "log16", 2**32 - 1, 1023, A, B, f"rows {s}..{s+len(rows)-1} x all",
+                      gen=["band", [int(x) for x in rows]])
     except StopExploration:
         pass
     return r.n, r.violations
@@ -311,7 +403,7 @@ def run(rep):
         cells += log16_band(rep, mc, nr, rows)
         # identity: all 65536 counters against the empty sketch
         J = np.arange(65536)[None, :]
-        R = check_log(rep, "log16", mc, nr, J, np.zeros_like(J), "identity")
+        R = check_log(rep, "log16", mc, nr, J, np.zeros_like(J), "identity", gen=["ident16"])
         cells += 65536
         if not np.array_equal(R, J):
             rep.violation({"kind": "log", "kind_": "log16", "mc": mc, "nr": nr, "a": 1, "b": 0,
@@ -338,14 +430,15 @@ def run(rep):
         cells += log16_band(rep, mc, nr, rows)
         cells += log8_all_pairs(rep, mc, nr)
     # wide tables (more columns than any internal block size; not a multiple of 4096)
-    rng = np.random.default_rng(rep.seed + 9)
-    for kind, top, w, d in (("log8", 255, 5000, 3), ("log16", 65535, 10000, 2), ("log8", 255, 4097, 1)):
-        A = rng.integers(0, top + 1, (d, w))
-        B = rng.integers(0, min(top, 300) + 1, (d, w))
-        A[:, -3:] = (1, 2, top)
-        R = check_log(rep, kind, 2**32 - 1, 15 if kind == "log8" else 1023, A, B, f"wide {w}x{d}")
+    for wi, (kind, top, w, d) in enumerate((("log8", 255, 5000, 3), ("log16", 65535, 10000, 2),
+                                            ("log8", 255, 4097, 1))):
+        gen = ["wide", top, w, d, rep.seed + 9 + wi]
+        A, B = regen(gen)
+        R = check_log(rep, kind, 2**32 - 1, 15 if kind == "log8" else 1023, A, B, f"wide {w}x{d}",
+                      gen=gen)
         cells += A.size
         rep.nontrivial(("wide", kind, w))
+    cells += single_cell_merges(rep)
     cells += linear_part(rep)
     rep.set("states", cells)
     rep.set("transitions", cells)
@@ -381,12 +474,17 @@ def replay(case):
         r.violations = []
         d, w = case.get("shape", [1, 2])
         i, j = case.get("pos", [0, 0])
-        A = np.zeros((d, w), np.int64)
-        B = np.zeros((d, w), np.int64)
-        A[i, j], B[i, j] = case["a"], case["b"]
-        if (d, w) == (1, 2):
-            A[0, 1], B[0, 1] = case["b"], case["a"]
-        R_ = check_log(r, case["kind_"], case["mc"], case["nr"], A, B, "replay")
+        if case.get("gen"):
+            # the very tables of the recorded merge (what a merge derives from the table as a
+            # whole is part of the input)
+            A, B = regen(case["gen"])
+        else:
+            A = np.zeros((d, w), np.int64)
+            B = np.zeros((d, w), np.int64)
+            A[i, j], B[i, j] = case["a"], case["b"]
+            if (d, w) == (1, 2):
+                A[0, 1], B[0, 1] = case["b"], case["a"]
+        R_ = check_log(r, case["kind_"], case["mc"], case["nr"], A, B, "replay", gen=case.get("gen"))
         bad = bool(r.violations)
         if case.get("commut"):
             A2, B2 = B.copy(), A.copy()
@@ -409,14 +507,27 @@ def replay(case):
         def nontrivial(self, t):
             pass
 
-    r = R2(max_violations=100)
+    r = R2(max_violations=100000)
     r.seed = case.get("seed", 0)
+    if k in ("cell1", "zero-records"):
+        single_cell_merges(r)
+        want = {kk: case[kk] for kk in ("kind", "kind_", "mc", "nr", "a", "b") if kk in case}
+        hits = [m for c, m in r.violations if all(c.get(kk) == v for kk, v in want.items())]
+        return bool(hits), {"problems": hits[:3]}
     if k.startswith("linear"):
         linear_part(r)
     else:
         check_log(r, case["kind_"], case["mc"], case["nr"], np.array([[1, 2]]), np.array([[3, 4]]), "replay")
-    if k == "log-n0":
+    if k in ("log-n0", "log-n", "log-b"):
         r.violations = []
-        check_log(r, case["kind_"], case["mc"], case["nr"], np.array([[1, 2]]), np.array([[3, 4]]), "replay")
+        PRE.clear()
+        for pk, pmc, pnr in case.get("pre", []):
+            check_log(r, pk, pmc, pnr, np.array([[1, 2]]), np.array([[2, 1]]), "replay-pre")
+        r.violations = []
+        if case.get("gen"):
+            A, B = regen(case["gen"])
+        else:
+            A, B = np.array([[1, 2]]), np.array([[3, 4]])
+        check_log(r, case["kind_"], case["mc"], case["nr"], A, B, "replay", gen=case.get("gen"))
     hits = [m for c, m in r.violations if c["kind"] == k]
     return bool(hits), {"problems": hits[:3]}
